@@ -214,6 +214,14 @@ def family(t, sd):
               'min x_0 + x_1 + z\ns.t.\n    x_i >= lo[i] for i in 0..2\n    z >= 0.5\nwhere\n    let lo = [0.5, 1.5]\ndefine\n    x_i as Real(lo[i]) for i in 0..2\n    z as NonNegativeReal(0.25, 10)',
               'min a + b + c\ns.t.\n    a + b + c >= 3\ndefine\n    a, b as Real(1)\n    c as NonNegativeReal(0.5)',
               'max a\ns.t.\n    a <= sum((u, v, w) in edges(G)) { w }\nwhere\n    let G = Graph {\n        A -> [B: 2.5, C: 1],\n        B -> [C],\n        C\n    }\ndefine\n    a as IntegerRange(0 - 2, 2 * 5)']
+    # strings with escapes, builtin calls that have a literal spelling in iterator position only (range), an index
+    # variable whose own name starts with an underscore
+    extra += ['min x\ns.t.\n    x >= len(names)\nwhere\n    let names = ["a\\"b", "c"]\ndefine\n    x as Real(0, 9)',
+              'min x\ns.t.\n    x >= len(range(0, 3, true))\n    sum(i in range(0, 2, false)) { x } <= 9\ndefine\n    x as Real(0, 9)',
+              'min x_{_a}\ns.t.\n    x_{_a} >= 1\nwhere\n    let _a = 2\ndefine\n    x_{_a} as Real(0, 9)']
+    # compound-variable subscripts that are not plain names or numbers: array access, function call, expression
+    extra += ['min sum(i in 0..2) { x_{pick[i]} }\ns.t.\n    x_{len(pick)} >= 1\n    x_{pick[0] + 2} <= 5\nwhere\n    let pick = [1, 2]\ndefine\n    x_i as Real(0, 9) for i in 0..4',
+              'max sum((e, i) in enumerate(w)) { x_{i}_{w[i]} }\ns.t.\n    x_{i}_{w[i]} <= e for (e, i) in enumerate(w)\nwhere\n    let w = [3, 5]\ndefine\n    x_i_j as Real(0, 9) for i in 0..2, j in 3..=5']
     # graph literals: weights with many decimals and tiny weights (the weight is a number of the model)
     extra += ['max a\ns.t.\n    a <= w for (u, v, w) in edges(G)\nwhere\n    let G = Graph {\n        A -> [B: 1.2345678, C: 0.0000004],\n        B -> [C: 12345.678901]\n    }\ndefine\n    a as Real(-5, 50000)',
               'min sum((u, v, w) in edges(G)) { w * x_u }\ns.t.\n    sum(u in nodes(G)) { x_u } >= 1\nwhere\n    let G = Graph {\n        A -> [B: 0.30000000000000004, C],\n        B -> [A: 2],\n        C\n    }\ndefine\n    x_u as Boolean for u in nodes(G)']
